@@ -49,6 +49,9 @@ type routeSpec struct {
 	Filter string `json:"filter,omitempty"`
 	Scope  int    `json:"scope,omitempty"`
 	Name   string `json:"name,omitempty"`
+	// Explicit: criteria that are absent (zero) are still passed as options, with their zero value:
+	// WithBaseDN(""), WithFilter(""), WithScope(BaseObject). A zero criterion is no criterion either way.
+	Explicit bool `json:"explicit_zero_options,omitempty"`
 }
 
 type c03rep struct {
@@ -68,6 +71,8 @@ func routeAlphabet() []routeSpec {
 			}
 		}
 	}
+	a = append(a, routeSpec{Kind: "search", Explicit: true}, routeSpec{Kind: "search", Base: "dc=a", Explicit: true},
+		routeSpec{Kind: "search", Filter: "(cn=x)", Explicit: true}, routeSpec{Kind: "search", Scope: 1, Explicit: true})
 	for _, n := range []string{codec.OIDStartTLS, codec.OIDWhoAmI, "x"} {
 		a = append(a, routeSpec{Kind: "extended", Name: n})
 	}
@@ -173,13 +178,13 @@ func buildMux(table []routeSpec, rec *[]int, routerAfter int) (*gldap.Mux, error
 			err = mux.Bind(h)
 		case "search":
 			var opts []gldap.Option
-			if rt.Base != "" {
+			if rt.Base != "" || rt.Explicit {
 				opts = append(opts, gldap.WithBaseDN(rt.Base))
 			}
-			if rt.Filter != "" {
+			if rt.Filter != "" || rt.Explicit {
 				opts = append(opts, gldap.WithFilter(rt.Filter))
 			}
-			if rt.Scope != 0 {
+			if rt.Scope != 0 || rt.Explicit {
 				opts = append(opts, gldap.WithScope(gldap.Scope(rt.Scope)))
 			}
 			err = mux.Search(h, opts...)
